@@ -39,6 +39,7 @@ def check(ctx: Ctx) -> None:
     r4_reset(ctx)
     r5_evaluators(ctx)
     r6_readonly(ctx)
+    engine_memo_rule(ctx, 'C07.R2')
 
 
 # --------------------------------------------------------------------------- R1
@@ -431,3 +432,58 @@ def _judge(ctx, f: FuncInfo, fl, recv, node, what) -> None:
     tainted = [l for l, ops in leaves if l.startswith('param:') and l != 'param:self' or any(o in ('.rules', '.tags', '.let_bindings', '.fields') for o in ops) and l == 'param:self']
     ctx.check(not tainted, 'C07.R6', f, label, f'{what} on {root}: derives from fresh values',
               f'{what} on {src(recv)[:40]!r} which derives from {sorted(set(tainted))[:3]}: rules / rows / transaction are altered by classification', node)
+
+
+# --------------------------------------------------------------------------- engine-level memos
+def _deps(fl, e, at) -> Set[str]:
+    """Inputs an expression depends on: 'p' for a whole parameter, 'p.attr' for one attribute of it."""
+    out = set()
+    for leaf, ops in fl.leaf_paths(e, at):
+        if not leaf.startswith(('param:', 'loopvar:')):
+            continue
+        p = leaf.split(':', 1)[1]
+        if p in ('self', 'cls'):
+            # engine state read: self.rules etc. (a memo of engine state is fine as long as parse() resets it – R4)
+            continue
+        first_attr = next((o for o in ops if o.startswith('.') and not o.startswith('..')), None)
+        idx_name = ops.index(f'name:{p}') if f'name:{p}' in ops else -1
+        nxt = ops[idx_name + 1] if 0 <= idx_name < len(ops) - 1 else None
+        if nxt and nxt.startswith('.') and not nxt.startswith('.__'):
+            out.add(f'{p}{nxt}')
+        else:
+            out.add(p)
+    return out
+
+
+def engine_memo_rule(ctx: Ctx, rule: str) -> None:
+    """Stores into engine attributes made while classifying (self.X[k] = v in methods reachable from match) are memos:
+    the key must carry every input the value is computed from."""
+    proj = ctx.proj
+    cg = get_cg(proj)
+    match = proj.func('merchant_engine.MerchantEngine.match')
+    ci = match.cls
+    reach = [proj.funcs[q] for q in cg.reachable(match) if q.startswith(ci.qualname + '.')]
+    n = 0
+    for m in sorted(reach, key=lambda x: x.qualname):
+        fl = get_flow(proj, m)
+        for node in all_nodes(m.node):
+            if not isinstance(node, ast.Assign):
+                continue
+            for t in node.targets:
+                if not (isinstance(t, ast.Subscript) and isinstance(t.value, ast.Attribute) and isinstance(t.value.value, ast.Name) and t.value.value.id == 'self'):
+                    continue
+                n += 1
+                old = fl.follow_stores
+                fl.follow_stores = True
+                try:
+                    vdeps = _deps(fl, node.value, node)
+                    kdeps = _deps(fl, t.slice, node)
+                finally:
+                    fl.follow_stores = old
+                missing = sorted(d for d in vdeps if d not in kdeps and d.split('.')[0] not in kdeps)
+                ctx.check(not missing, rule, m, f'engine-memo:{t.value.attr}',
+                          f'self.{t.value.attr}[{src(t.slice)}] memoises a value that depends only on its key',
+                          f'self.{t.value.attr}[{src(t.slice)}] = … caches a value computed from {sorted(vdeps)} under a key that only carries {sorted(kdeps)} (missing {missing}): '
+                          f'two rules / transactions that share the key get each other\'s result, so the outcome depends on what was classified before (rule names are not unique)', node)
+    if n == 0:
+        ctx.ok(rule, match, 'classification stores nothing into engine attributes (no engine-level memo)', construct='engine-memo:none')
